@@ -651,6 +651,16 @@ def run(ck):
     elif rp and rp.get("timing_run"):
         cases, cfgs = [], []
         tcfgs = [(rp["timing_run"]["kind"], rp["timing_run"]["seed"], rp["timing_run"]["par"])]
+    elif rp and rp.get("pickup_seq"):
+        cases, cfgs = [], []
+        rc0, a, e0, args = transcript(runner, "pickup_seq", rp["pickup_seq"]["seed"], rp["pickup_seq"]["par"], 0)
+        for sec in a.split(b"=== ")[1:]:
+            label, _, body = sec.partition(b"\n")
+            nd = len(ck.diffs)
+            predict_run_draws(ck, model, "pickup_seq replay [" + label.decode() + "]", rp["pickup_seq"]["seed"], body, 100000)
+            if len(ck.diffs) > nd:
+                ck.add_violation("pickup:draw-not-from-live-layer-sizes", "replay: " + label.decode() + ": a draw differs from "
+                                 "std::discrete_distribution over the live layer sizes", {"pickup_seq": rp["pickup_seq"]})
     elif rp and rp.get("inproc_run"):
         cases, cfgs = [], []
         icfgs = [(rp["inproc_run"]["kind"], rp["inproc_run"]["seed"], rp["inproc_run"]["par"])]
@@ -683,7 +693,8 @@ def run(ck):
     ck.coverage["double_run_pairs"] = nruns
     if not rp:
         npick = 0
-        for sizes in [[5, 3, 9, 1], [10, 10], [1, 1, 1, 1, 1, 1, 1], [1000, 1], [3, 0, 4], [7, 20, 50, 2, 9]] + \
+        for sizes in [[5, 3, 9, 1], [10, 10], [1, 1, 1, 1, 1, 1, 1], [1000, 1], [3, 0, 4], [7, 20, 50, 2, 9], [30, 10], [10, 30],
+                      [20, 15, 5], [5, 15, 20]] + \
                      [[ck.rng.randint(1, 40) for _ in range(ck.rng.randint(2, 6))] for _ in range(6 if ck.thorough else 2)]:
             par = {"calls": 400 if ck.thorough else 120}
             par.update({"s%d" % i: s for i, s in enumerate(sizes)})
@@ -694,6 +705,58 @@ def run(ck):
                 ck.add_violation("pickup:abort", "`%s` aborts (rc %d)" % (cmd, rc0), {"run": cmd, "stderr": e0[-1500:]})
                 continue
             npick += predict_run_draws(ck, model, cmd, seed, a, 100000)
+        # in-process sequences: populations built one after the other at the same address, same seed each time;
+        # (a) experiments with the same sizes give the same draws, (b) every draw is the model's prediction from the
+        # LIVE layer sizes (hidden state between populations / a split that is not refreshed)
+        seqs = [[([30, 10], None), ([5, 5, 30], None), ([10, 30], None), ([30, 10], None)],
+                [([20, 20], [35, 5]), ([35, 5], None), ([20, 20], [35, 5])],
+                [([1, 2, 3], None), ([3, 2, 1], None), ([2, 2, 2], [1, 4, 1]), ([1, 2, 3], None)]]
+        if ck.thorough:
+            for _ in range(6):
+                tot = ck.rng.randint(6, 60)
+                def split(k):
+                    cuts = sorted(ck.rng.sample(range(1, tot), k - 1))
+                    return [b - a for a, b in zip([0] + cuts, cuts + [tot])]
+                k = ck.rng.choice([2, 3, 4])
+                a, b = split(k), split(k)
+                seqs.append([(a, None), (b, None), (a, b), (a, None)])
+        for exps in seqs:
+            par = {"calls": 200 if ck.thorough else 80}
+            for e, (s, later) in enumerate(exps):
+                par.update({"e%ds%d" % (e, l): v for l, v in enumerate(s)})
+                if later:
+                    par.update({"e%dt%d" % (e, l): v for l, v in enumerate(later)})
+            seed = ck.rng.getrandbits(32)
+            rc0, a, e0, args = transcript(runner, "pickup_seq", seed, par, 0)
+            cmd = " ".join(args[1:])
+            if rc0 != 0:
+                ck.add_violation("pickup:abort", "`%s` aborts (rc %d)" % (cmd, rc0), {"pickup_seq": {"seed": seed, "par": par}, "stderr": e0[-1500:]})
+                continue
+            secs = a.split(b"=== ")[1:]
+            bodies = {}
+            for e, sec in enumerate(secs):
+                label, _, body = sec.partition(b"\n")
+                key = (tuple(exps[e][0]), tuple(exps[e][1] or ()))
+                # (b) against the model, draw by draw, from the sizes that were live at each draw
+                ndiff = len(ck.diffs)
+                npick += predict_run_draws(ck, model, cmd + " [" + label.decode() + "]", seed, body, 100000)
+                if len(ck.diffs) > ndiff:
+                    d = ck.diffs[-1]
+                    ck.add_violation("pickup:draw-not-from-live-layer-sizes",
+                                     "`%s`, %s: draw #%s (%s) is %s, std::discrete_distribution over the live layer sizes gives %s "
+                                     "(same seed; the populations before it in this process were %s)"
+                                     % (cmd, label.decode(), d["case"].get("draw_index"), d["case"].get("request"), d["impl"], d["model"],
+                                        [x[0] for x in exps[:e]]),
+                                     {"pickup_seq": {"seed": seed, "par": par}, "experiment": e, "draw_index": d["case"].get("draw_index"),
+                                      "impl": d["impl"], "model": d["model"]})
+                # (a) same sizes, same seed, same process => same draws
+                if key in bodies and bodies[key][1] != body:
+                    i, x, y, _ = first_diff(bodies[key][1], body)
+                    ck.add_violation("pickup:depends-on-process-history",
+                                     "`%s`: experiments %d and %d use the same layer sizes %s and the same seed but differ from line %d on"
+                                     % (cmd, bodies[key][0], e, list(key[0]), i),
+                                     {"pickup_seq": {"seed": seed, "par": par}, "first": x, "other": y})
+                bodies.setdefault(key, (e, body))
         ck.coverage["pickup_draws_predicted_from_seed"] = npick
     timing_runs(ck, runner, tcfgs)
     inproc_runs(ck, runner, icfgs)
